@@ -2,7 +2,7 @@
  * Unless explicitly stated otherwise all files in this repository are licensed under the Apache-2.0 License.
  * This product includes software developed at Datadog (https://www.datadoghq.com/). Copyright 2022 Datadog, Inc.
  **/
-use swc_common::{util::take::Take, Span};
+use swc_common::{util::take::Take, Span, DUMMY_SP};
 use swc_ecma_ast::ExprOrSpread;
 use swc_ecma_visit::swc_ecma_ast::{BinaryOp, Expr};
 
@@ -102,6 +102,10 @@ pub trait OperandHandler {
                             ident_provider,
                             ExpandArrays::No,
                         )
+                    } else {
+                        // a hole reaches the applied function as `undefined`: keep the hook's
+                        // arguments aligned with the call's
+                        arguments.push(ExprOrSpread::from(*Expr::undefined(DUMMY_SP)))
                     }
                 })
             }
